@@ -392,7 +392,11 @@ def rule_sizes(ck, repo, R):
     ck.decide(v2 == Lin({'b': 3, 'ceil(3*b/8)': 1, 'c': 4}), R, 'pack_len:v2', repr(v2), f'pack_len skips {v2} after the atom block of a version-2 molecule; the writer emits 3*b + ceil(3*b/8) + 4*c', file=f.file, line=f.lineno)
     ck.decide(v0 == Lin({'b': 3, 'ceil(1*b/5)': 2, 'c': 4}), R, 'pack_len:v0', repr(v0), f'pack_len skips {v0} for version 0; the reader uses 3*b + 2*ceil(b/5) + 4*c', file=f.file, line=f.lineno)
     s = src(f.node)
-    ck.decide("ac = acs >> 12" in s and "shift += 4" in s and "shift += 9" in s and "neighbors += data[shift] & 15" in s and 'neighbors //= 2' in s, R, 'pack_len:atom-block', None,
+    walk_form = "shift += 9" in s and "neighbors += data[shift] & 15" in s and 'neighbors //= 2' in s
+    # closed form of the same walk: neighbours = (sum of the low nibbles at stride 9) // 2, then skip 9 * ac bytes
+    sum_form = any(x in s for x in ("neighbors = sum((data[shift + 9 * i] & 15 for i in range(ac))) // 2", "neighbors = sum((data[shift + i * 9] & 15 for i in range(ac))) // 2",
+                                    "neighbors = sum((data[i] & 15 for i in range(shift, shift + 9 * ac, 9))) // 2")) and ("shift += 9 * ac" in s or "shift += ac * 9" in s)
+    ck.decide("ac = acs >> 12" in s and "shift += 4" in s and (walk_form or sum_form), R, 'pack_len:atom-block', None,
               'pack_len no longer walks 9-byte atom records reading the neighbour nibble', file=f.file, line=f.lineno)
     ml = repo.func(f'{MOL}:MoleculeContainer.pack_len')
     ck.decide("int.from_bytes(data[1:3], 'big') >> 4" in src(ml.node), R, 'molecule.pack_len', None, 'MoleculeContainer.pack_len no longer reads the 12-bit atom count', file=ml.file, line=ml.lineno)
